@@ -101,7 +101,7 @@ def make_meta(kind, sites=None, *, encoding="shank", stream="ap", ns=100, fs=Non
     L.append(f"acqApLfSy=384,{384 if KINDS[kind][4] else 0},1")
     L.append("appVersion=20201103")
     L.append(f"fileSizeBytes={nc * ns * 2 if file_size_bytes is None else file_size_bytes}")
-    L.append(f"fileTimeSecs={repr(ns / fs) if file_time_secs is None else file_time_secs}")
+    L.append(f"fileTimeSecs={np.format_float_positional(ns / fs) if file_time_secs is None else file_time_secs}")
     L.append("firstSample=0")
     L.append(f"imAiRangeMax={range_max}")
     L.append(f"imAiRangeMin=-{range_max}")
@@ -160,7 +160,7 @@ def make_nidq_meta(mn=0, ma=0, xa=1, dw=1, *, ns=100, fs=30003.0003, mn_gain=200
                    file_time_secs=None, extra=None):
     nc = mn + ma + xa + dw
     L = [f"acqMnMaXaDw={mn},{ma},{xa},{dw}", f"fileSizeBytes={nc * ns * 2}",
-         f"fileTimeSecs={repr(ns / fs) if file_time_secs is None else file_time_secs}", "firstSample=0",
+         f"fileTimeSecs={np.format_float_positional(ns / fs) if file_time_secs is None else file_time_secs}", "firstSample=0",
          f"nSavedChans={nc}", f"niAiRangeMax={range_max}", f"niAiRangeMin=-{range_max}", f"niMAGain={ma_gain}",
          f"niMNGain={mn_gain}", f"niSampRate={fs}", f"snsMnMaXaDw={mn},{ma},{xa},{dw}", "snsSaveChanSubset=all",
          "typeThis=nidq", "~snsShankMap=(1,2,0)"]
